@@ -1,6 +1,6 @@
 (* C36 — Managed mode honors caller-chosen timestamps. Statements only. *)
-From Verif Require Import Bytes Keys Consts Spec Lsm Compact Sys.
-From Verif Require CompactProofs GetProofs ManagedProofs BatchProofs SysProofs.
+From Verif Require Import Bytes Keys Consts Spec Lsm Compact Sys SysTree.
+From Verif Require CompactProofs GetProofs ManagedProofs BatchProofs SysProofs ManagedSpecProofs.
 Open Scope N_scope.
 
 (* commits use exactly the caller's commit timestamp; explicit per-entry versions are kept *)
@@ -37,8 +37,11 @@ Print Assumptions C36_same_version_later_wins.
 (* Full statement "a read at any timestamp sees exactly the newest WRITE at or below it, for
    arbitrary (non-monotonic) commit timestamps" is FALSE of the faithful model (finding F10):
    a delete at 7 compacted away, then an older version 5 written: the read at 9 returns it.
-   What holds: the statement for histories whose versions per key never decrease — that is
-   C12_all_histories / C01_get_equals_spec (normal mode is the special case the proof covers). *)
+   What holds: (a) the statement for histories whose versions per key never decrease — that is
+   C12_all_histories / C01_get_equals_spec (normal mode is the special case the proof covers);
+   (b) the statement for ARBITRARY (non-monotonic) commit timestamps as long as no compaction
+   runs with a discard timestamp above 0 (SetDiscardTs never called):
+   C36_managed_get_equals_spec_no_discard below. *)
 Theorem C36_reads_refuted :
   let '(bad, s) := exec (init_sys true false 1 2 1) ManagedProofs.f10_ops 0 in
   bad = None
@@ -46,3 +49,85 @@ Theorem C36_reads_refuted :
   /\ vis (s_writes s) ManagedProofs.f10_key 9 0 = None.
 Proof. exact ManagedProofs.managed_nonmonotonic_refuted. Qed.
 Print Assumptions C36_reads_refuted.
+
+(* ---- managed mode without a discard timestamp: arbitrary (non-monotonic) commit timestamps ---- *)
+
+(* whenever the tree stores exactly the committed writes (and no key@version was written twice
+   with different contents), every read at every timestamp and wall-clock time is the
+   specification's answer *)
+Theorem C36_reads_when_all_stored : forall d ws k ts now,
+  GetProofs.lsm_wf d -> CompactProofs.nodup_kv ws ->
+  (forall x, In x ws <-> In x (GetProofs.all_entries d)) ->
+  CompactProofs.vis_of now (db_get d k ts) = vis ws k ts now.
+Proof. exact ManagedSpecProofs.managed_reads_when_all_stored. Qed.
+Print Assumptions C36_reads_when_all_stored.
+
+(* the labels the next theorems are about: commit timestamps are positive (CommitAt(0) is
+   rejected by commitPrecheck unless an entry carries its own version; Sys.txn_commit does not
+   model the rejection: C36_zero_commit_ts_not_stored_refuted), every compaction ran with discard
+   timestamp 0 and without drop prefixes.  Nothing is required of the ORDER of the timestamps,
+   nor of explicit per-entry versions (SetEntryAt). *)
+Example C36_op_managed_def : forall o,
+  ManagedSpecProofs.op_managed o =
+  match o with
+  | Commit _ cts _ => 0 < cts
+  | Compact c _ => c_discard c = 0 /\ c_drop c = []
+  | _ => True
+  end.
+Proof. reflexivity. Qed.
+
+(* every state a managed history reaches is well-formed, all stored versions are positive, and
+   the memtable + tables hold EXACTLY the committed writes — provided no key@version was
+   written twice with different contents (nodup_kv of the final list of writes; excluded because
+   the memtable overwrites the first copy and across tables the precedence of two copies can
+   flip: finding F8) *)
+Theorem C36_managed_stored_exactly : forall detect nkeep nlevels next ops,
+  (0 < nlevels)%nat -> Forall ManagedSpecProofs.op_managed ops ->
+  let s := snd (exec_tree (init_sys true detect nkeep nlevels next) ops 0) in
+  GetProofs.lsm_wf (s_db s) /\
+  (forall w, In w (s_writes s) -> 0 < e_ver w) /\
+  (CompactProofs.nodup_kv (s_writes s) ->
+   forall x, In x (s_writes s) <-> In x (GetProofs.all_entries (s_db s))).
+Proof. exact ManagedSpecProofs.managed_stored_exactly. Qed.
+Print Assumptions C36_managed_stored_exactly.
+
+(* ... and therefore a read at any chosen timestamp, at any wall-clock time, returns exactly the
+   newest write at or below it, whatever the order of the caller-chosen commit timestamps *)
+Theorem C36_managed_get_equals_spec_no_discard : forall detect nkeep nlevels next ops,
+  (0 < nlevels)%nat -> Forall ManagedSpecProofs.op_managed ops ->
+  let s := snd (exec_tree (init_sys true detect nkeep nlevels next) ops 0) in
+  CompactProofs.nodup_kv (s_writes s) ->
+  forall k ts now, CompactProofs.vis_of now (db_get (s_db s) k ts) = vis (s_writes s) k ts now.
+Proof. exact ManagedSpecProofs.managed_get_equals_spec_no_discard. Qed.
+Print Assumptions C36_managed_get_equals_spec_no_discard.
+
+(* the hypotheses are satisfiable by a history with non-monotonic timestamps: key 107 written at
+   version 9, flushed, compacted into level 1; then the OLDER version 5 written and flushed, so
+   level 0 (consulted first) holds the older version and level 1 the newer one; reads return the
+   newest version at or below the read timestamp *)
+Example C36_nonmonotonic_history :
+  let '(bad, s) := exec_tree (init_sys true false 1 2 1) ManagedSpecProofs.nm_ops 0 in
+  bad = None
+  /\ l_levels (s_db s) = [[mkT 3 [mkE ManagedSpecProofs.nm_key 5 0 0 0 [5]]];
+                           [mkT 2 [mkE ManagedSpecProofs.nm_key 9 0 0 0 [9]]]]
+  /\ s_writes s = [mkE ManagedSpecProofs.nm_key 9 0 0 0 [9]; mkE ManagedSpecProofs.nm_key 5 0 0 0 [5]]
+  /\ db_get (s_db s) ManagedSpecProofs.nm_key 10 = Some (mkE ManagedSpecProofs.nm_key 9 0 0 0 [9])
+  /\ db_get (s_db s) ManagedSpecProofs.nm_key 7 = Some (mkE ManagedSpecProofs.nm_key 5 0 0 0 [5])
+  /\ db_get (s_db s) ManagedSpecProofs.nm_key 4 = None
+  /\ ManagedSpecProofs.nodup_kv_b (s_writes s) = true.
+Proof. exact ManagedSpecProofs.nm_ops_accepted. Qed.
+
+Example C36_nonmonotonic_history_hyps :
+  Forall ManagedSpecProofs.op_managed ManagedSpecProofs.nm_ops /\
+  CompactProofs.nodup_kv (s_writes (snd (exec_tree (init_sys true false 1 2 1) ManagedSpecProofs.nm_ops 0))).
+Proof. exact ManagedSpecProofs.nm_ops_hyps. Qed.
+
+(* what "0 < cts" excludes: the model stores a CommitAt(0) delete at version 0, which is at or
+   below the discard timestamp 0, and a compaction without overlap below drops it *)
+Theorem C36_zero_commit_ts_not_stored_refuted :
+  let '(bad, s) := exec_tree (init_sys true false 1 2 1) ManagedSpecProofs.z_ops 0 in
+  bad = None
+  /\ s_writes s = [mkE ManagedSpecProofs.nm_key 0 1 0 0 []]
+  /\ GetProofs.all_entries (s_db s) = [].
+Proof. exact ManagedSpecProofs.zero_commit_ts_not_stored_refuted. Qed.
+Print Assumptions C36_zero_commit_ts_not_stored_refuted.
